@@ -148,7 +148,8 @@ def run(c, facts, tier):
             rhs = rx.peel(bb["rhs"])
             binds = rx.pat_bindings(p)
             if rhs["k"] == "lit":
-                ok = True
+                # a flag option switches its flag on
+                ok = rhs.get("t") != "bool" or rhs["v"] is True
             elif rhs["k"] == "call" and rx.path_str(rhs["f"]) == "Some" and len(rhs["args"]) == 1 and binds and rx.is_var(rhs["args"][0], binds[0]):
                 ok = True
             elif binds and rx.is_var(rhs, binds[0]):
@@ -162,6 +163,26 @@ def run(c, facts, tier):
                 continue
         c.ob("C13.last-wins", upd.key, "%s assigns (never merges)" % var, ok, "arm body `%s` — a plain assignment makes the last occurrence win" % det, witness="-threads 2 -threads 8" if ok is False else None)
     # two different options must not write the same field with different meaning: informational
+    # the options object that is updated (leading pass and token map) is the one returned, and it starts from the defaults
+    recvs = {rx.var_name(n["recv"]) for n in find_all(infn.body, lambda n: n.get("k") == "mcall" and n["m"] == upd.name)}
+    tl = rx.tail_expr(infn.body)
+    ret0 = None
+    if tl is not None and tl["k"] == "call" and tl["args"] and tl["args"][0]["k"] == "tuple":
+        ret0 = rx.var_name(tl["args"][0]["elems"][0])
+    inits = [st for st in infn.body["stmts"] if st["k"] == "let" and st["pat"]["k"] == "ident" and st["pat"]["name"] == ret0]
+    init_ok = len(inits) == 1 and src(inits[0]["init"]) in ("RunOptions::default()", "Default::default()", "RunOptions::new()")
+    c.ob("C13.last-wins", inner, "one options object: created from the defaults, updated in input order, returned", len(recvs) == 1 and ret0 in recvs and init_ok, "update() receivers %s; returned %s; initialised by %s" % (sorted(x for x in recvs if x), ret0, src(inits[0]["init"]) if inits else None))
+    dfn = facts.fns.get("<RunOptions as Default>::default")
+    okd, detd = None, "Default impl for RunOptions not found (derived?)"
+    if dfn is not None:
+        lit = find_all(dfn.body, lambda n: n.get("k") == "struct" and n["segs"][-1] == "RunOptions")
+        if lit:
+            fl = {f["name"]: src(f["e"]) for f in lit[0]["fields"]}
+            okd = fl.get("depth") == "false" and fl.get("threads") == "None"
+            detd = "defaults %s (no option given ⇒ depth off, thread count left to the runtime)" % fl
+    elif "Default" in facts.derives(facts.struct("RunOptions")):
+        okd, detd = True, "derived Default: depth=false, threads=None"
+    c.ob("C13.threads", "<RunOptions as Default>::default", "defaults: depth off, no thread count", okd, detd)
     # ------------------------------------------------------------ C13.total
     built = {}
     for a in kw.alternatives(g, tokfn):
